@@ -13,7 +13,7 @@ Extraction "model.ml"
   update_kinematics update_kinematics_custom calc_b2b calc_base2b calc_orient calc_point_jacobian
   calc_point_jacobian6 calc_body_spatial_jacobian calc_point_velocity calc_point_velocity6
   calc_point_acceleration calc_point_acceleration6
-  inverse_dynamics nonlinear_effects crba forward_dynamics forward_dynamics_lagrangian minv_times_tau
+  inverse_dynamics nonlinear_effects order_ok crba forward_dynamics forward_dynamics_lagrangian minv_times_tau
   gauss_elim_pivot solve_pp minverse sparse_factorize_ltl sparse_solve_lx sparse_solve_ltx
   mvmul mTn mmmul mzeros vzeros mident
   calc_center_of_mass calc_zmp calc_potential_energy calc_kinetic_energy
